@@ -2,6 +2,7 @@ package main
 
 import (
 	"fmt"
+	"os"
 	"go/types"
 	"sort"
 	"strings"
@@ -18,6 +19,7 @@ import (
 // Instances are discovered from the handlers themselves; nothing is tabulated by hand.
 
 type msgLoad struct {
+	calls  []*ssa.Call // every load of this record type under the same message fields
 	call   *ssa.Call
 	typ    *types.Named
 	tname  string
@@ -49,63 +51,118 @@ func (p *Prog) messageLoads(fn *ssa.Function) []msgLoad {
 		return nil
 	}
 	var out []msgLoad
-	for _, c := range calls(fn) {
-		call, ok := c.(*ssa.Call)
-		if !ok {
-			continue
+	// origins of a key argument, seen from the handler: inside a helper (virtual inlining) a
+	// parameter stands for what the handler passes
+	var keyOrigins func(a ssa.Value, bind map[*ssa.Parameter]ssa.Value, d int) ([]Origin, bool)
+	keyOrigins = func(a ssa.Value, bind map[*ssa.Parameter]ssa.Value, d int) ([]Origin, bool) {
+		var res []Origin
+		os := p.Origins(a)
+		if len(os) == 0 {
+			return nil, false
 		}
-		ts := p.Callees(c)
-		if len(ts) == 0 || !isComdexFn(ts[0]) || ts[0].Signature.Recv() == nil {
-			continue
-		}
-		if !strings.HasPrefix(ts[0].Name(), "Get") {
-			continue
-		}
-		t := call.Type()
-		if tup, ok := t.(*types.Tuple); ok {
-			if tup.Len() == 0 {
-				continue
-			}
-			t = tup.At(0).Type()
-		}
-		nt := namedOf(t)
-		if nt == nil {
-			continue
-		}
-		if _, isStruct := nt.Underlying().(*types.Struct); !isStruct {
-			continue
-		}
-		kind := kindOfType(nt.Obj().Name())
-		if kind == "" {
-			continue
-		}
-		var keys []string
-		var keyVals []ssa.Value
-		pure := true
-		nID := 0
-		for _, a := range callArgs(c) {
-			if !isUint64(a.Type()) {
-				continue
-			}
-			nID++
-			os := p.Origins(a)
-			if len(os) == 0 {
-				pure = false
-			}
-			for _, o := range os {
-				if o.Kind != "param" || o.Val != ssa.Value(mp) || len(o.Path) == 0 {
-					pure = false
-					break
+		for _, o := range os {
+			if o.Kind == "param" {
+				if pr, isP := o.Val.(*ssa.Parameter); isP {
+					if pr == mp && len(o.Path) > 0 {
+						res = append(res, o)
+						continue
+					}
+					if arg, bound := bind[pr]; bound && d < 3 {
+						sub, ok := keyOrigins(arg, nil, d+1) // the argument is a handler value
+						if !ok {
+							return nil, false
+						}
+						for _, so := range sub {
+							so.Path = append(append([]string{}, so.Path...), o.Path...)
+							res = append(res, so)
+						}
+						continue
+					}
 				}
-				keys = append(keys, strings.Join(o.Path, "."))
 			}
-			keyVals = append(keyVals, a)
+			return nil, false
 		}
-		if !pure || nID == 0 {
+		return res, true
+	}
+	type scope struct {
+		f    *ssa.Function
+		bind map[*ssa.Parameter]ssa.Value
+	}
+	scopes := []scope{{fn, nil}}
+	handlers := p.handlerSet()
+	for _, c := range calls(fn) {
+		h := c.Common().StaticCallee()
+		if h == nil {
 			continue
 		}
-		sort.Strings(keys)
-		out = append(out, msgLoad{call: call, typ: nt, tname: nt.Obj().Name(), kind: kind, keys: keys, keyVal: keyVals})
+		h = p.unwrap(h)
+		if h == nil || !isComdexFn(h) || len(h.Blocks) == 0 || handlers[h] || h == fn || moduleOf(h) != moduleOf(fn) || strings.HasPrefix(h.Name(), "Get") {
+			continue
+		}
+		bind := map[*ssa.Parameter]ssa.Value{}
+		args := c.Common().Args
+		for i, pr := range h.Params {
+			if i < len(args) {
+				bind[pr] = args[i]
+			}
+		}
+		scopes = append(scopes, scope{h, bind})
+	}
+	for _, sc := range scopes {
+		for _, c := range calls(sc.f) {
+			call, ok := c.(*ssa.Call)
+			if !ok {
+				continue
+			}
+			ts := p.Callees(c)
+			if len(ts) == 0 || !isComdexFn(ts[0]) || ts[0].Signature.Recv() == nil {
+				continue
+			}
+			if !strings.HasPrefix(ts[0].Name(), "Get") {
+				continue
+			}
+			t := call.Type()
+			if tup, ok := t.(*types.Tuple); ok {
+				if tup.Len() == 0 {
+					continue
+				}
+				t = tup.At(0).Type()
+			}
+			nt := namedOf(t)
+			if nt == nil {
+				continue
+			}
+			if _, isStruct := nt.Underlying().(*types.Struct); !isStruct {
+				continue
+			}
+			kind := kindOfType(nt.Obj().Name())
+			if kind == "" {
+				continue
+			}
+			var keys []string
+			var keyVals []ssa.Value
+			pure := true
+			nID := 0
+			for _, a := range callArgs(c) {
+				if !isUint64(a.Type()) {
+					continue
+				}
+				nID++
+				os, okk := keyOrigins(a, sc.bind, 0)
+				if !okk {
+					pure = false
+				}
+				for _, o := range os {
+					keys = append(keys, strings.Join(o.Path, "."))
+				}
+				keyVals = append(keyVals, a)
+			}
+			if !pure || nID == 0 {
+				continue
+			}
+			sort.Strings(keys)
+			out = append(out, msgLoad{call: call, typ: nt, tname: nt.Obj().Name(), kind: kind, keys: keys, keyVal: keyVals})
+		}
 	}
 	return out
 }
@@ -139,7 +196,21 @@ func recordLinkRule(p *Prog, r *Report, rule string, mods map[string]bool, floor
 		if !mods[moduleOf(fn)] || len(fn.Blocks) == 0 || !moves.Fn(fn) {
 			continue // handlers that move no coins keep no books the mix-up could unbalance
 		}
-		loads := p.messageLoads(fn)
+		raw := p.messageLoads(fn)
+		var loads []msgLoad
+		for _, l := range raw {
+			merged := false
+			for i := range loads {
+				if loads[i].tname == l.tname && strings.Join(loads[i].keys, ",") == strings.Join(l.keys, ",") {
+					loads[i].calls = append(loads[i].calls, l.call)
+					merged = true
+				}
+			}
+			if !merged {
+				l.calls = []*ssa.Call{l.call}
+				loads = append(loads, l)
+			}
+		}
 		if len(loads) < 2 {
 			continue
 		}
@@ -172,12 +243,40 @@ func recordLinkRule(p *Prog, r *Report, rule string, mods map[string]bool, floor
 						}
 						return false
 					}
-					isBLink := func(v ssa.Value) bool {
-						t, f, base, ok := fieldRead(v)
-						return ok && t == B.tname && f == lf && fromCall(base, B.call)
+					// v is field fld of the record returned by call (through locals and named results)
+					fieldOfCall := func(v ssa.Value, cs []*ssa.Call, fld string) bool {
+						if fld == "" {
+							return false
+						}
+						isOne := func(c *ssa.Call) bool {
+							for _, x := range cs {
+								if x == c {
+									return true
+								}
+							}
+							return false
+						}
+						if _, f, base, ok := fieldRead(v); ok && f == fld {
+							for _, c := range cs {
+								if fromCall(base, c) {
+									return true
+								}
+							}
+						}
+						os := p.Origins(v)
+						if len(os) == 0 {
+							return false
+						}
+						for _, o := range os {
+							if o.Kind != "call" || !isOne(o.Call) || o.Index != 0 || len(o.Path) != 1 || o.Path[0] != fld {
+								return false
+							}
+						}
+						return true
 					}
+					isBLink := func(v ssa.Value) bool { return fieldOfCall(v, B.calls, lf) }
 					isAID := func(v ssa.Value) bool {
-						if t, f, base, ok := fieldRead(v); ok && t == A.tname && f == aOwn && aOwn != "" && fromCall(base, A.call) {
+						if fieldOfCall(v, A.calls, aOwn) {
 							return true
 						}
 						// the message field(s) A was loaded under
@@ -201,14 +300,56 @@ func recordLinkRule(p *Prog, r *Report, rule string, mods map[string]bool, floor
 						}
 						return true
 					}
+					// inside a helper the records are parameters: match by record type and field
+					fromParam := func(v ssa.Value) bool {
+						os := p.Origins(v)
+						if len(os) == 0 {
+							return false
+						}
+						for _, o := range os {
+							if o.Kind != "param" {
+								return false
+							}
+						}
+						return true
+					}
+					isBLinkP := func(v ssa.Value) bool {
+						t, f, base, ok := fieldRead(v)
+						return ok && t == B.tname && f == lf && fromParam(base)
+					}
+					isAIDP := func(v ssa.Value) bool {
+						if t, f, base, ok := fieldRead(v); ok && t == A.tname && f == aOwn && aOwn != "" && fromParam(base) {
+							return true
+						}
+						// an id handed to the helper: which id it is is the call site's business (the
+						// identifier-kind rule checks the argument against the parameter's name)
+						if isUint64(v.Type()) && fromParam(v) {
+							if k := p.argKind(v); k == "" || compatibleKinds(k, A.kind) || (k == "pair" && A.kind == "extpair") {
+								return true
+							}
+						}
+						return false
+					}
+					// inside a helper that loads the records itself
+					isAIDH := func(v ssa.Value) bool { return fieldOfCall(v, A.calls, aOwn) }
 					g := &GuardSpec{
 						Name: fmt.Sprintf("%s.%s == %s id", B.tname, lf, A.tname),
 						Local: func(f *ssa.Function, cond ssa.Value) (bool, bool) {
 							a := p.Atom(cond)
+							if os.Getenv("LINKDBG") != "" {
+								fmt.Fprintf(os.Stderr, "LINKDBG %s in %s: cmp=%v op=%s\n", construct, fname(f), a.IsCmp, a.Op)
+								if a.IsCmp && a.X != nil && a.Y != nil {
+									fmt.Fprintf(os.Stderr, "   X: blink=%v aidh=%v aidp=%v  Y: blink=%v aidh=%v aidp=%v\n", isBLink(a.X), isAIDH(a.X), isAIDP(a.X), isBLink(a.Y), isAIDH(a.Y), isAIDP(a.Y))
+								}
+							}
 							if !a.IsCmp || (a.Op != "==" && a.Op != "!=") || a.X == nil || a.Y == nil {
 								return false, false
 							}
-							if !((isBLink(a.X) && isAID(a.Y)) || (isBLink(a.Y) && isAID(a.X))) {
+							if f == fn {
+								if !((isBLink(a.X) && isAID(a.Y)) || (isBLink(a.Y) && isAID(a.X))) {
+									return false, false
+								}
+							} else if !(((isBLinkP(a.X) || isBLink(a.X)) && (isAIDP(a.Y) || isAIDH(a.Y))) || ((isBLinkP(a.Y) || isBLink(a.Y)) && (isAIDP(a.X) || isAIDH(a.X)))) {
 								return false, false
 							}
 							eq := a.Op == "=="
